@@ -221,4 +221,74 @@ theorem runFiles_eq (ign : Str → Filemode → Bool) (acc : Str → Bool × Lan
       rw [ih (fun b hb => h b (by simp [hb])), addFiles_eq ign acc a.1 a.2 (h a (by simp))]
   simp only [runFiles, hl args hp]
 
+/-! ## sorts and ordered containers under a comparator
+
+A comparator that is a strict weak order on a layout-independent key (file index, line, column, id, name …) is its key;
+`isortBy` = stable sort, `osetOf` = `std::set<T, Compare>` filled in arrival order. -/
+
+/-- **`keyed_sort_perm_invariant`**: if no two elements have the same key, the sorted sequence does not depend on the order in
+    which the elements arrive (the iteration order of whatever container fed the sort) -/
+theorem keyed_sort_perm_invariant {α : Type} (key : α → Nat) (l l' : List α) (hp : l.Perm l') (hnd : (l.map key).Nodup) :
+    isortBy key l = isortBy key l' := by
+  have hnd' : (l'.map key).Nodup := (hp.map key).nodup_iff.1 hnd
+  apply eq_of_perm_of_strict (fun a b : α => key a < key b)
+  · intro a b h1 h2; omega
+  · exact (isortBy_perm key l).trans (hp.trans (isortBy_perm key l').symm)
+  · exact isortBy_strict key l hnd
+  · exact isortBy_strict key l' hnd'
+
+/-- **`keyed_sort_stable`**: elements with equal keys come out in their arrival order (stable sort) — the result is a function
+    of the keys and the arrival order, never of addresses -/
+theorem keyed_sort_stable {α : Type} (key : α → Nat) (l : List α) (k : Nat) :
+    (isortBy key l).filter (fun y => key y == k) = l.filter (fun y => key y == k) := by
+  simpa [isortBy] using foldl_ins_filter key k l [] List.Pairwise.nil
+
+/-- **`keyed_set_collapses`**: an element whose key is already in the ordered set is not inserted (that is what
+    `std::set<const Variable*, CompareVariables>` does to two variables declared by one macro expansion) -/
+theorem keyed_set_collapses {α : Type} (key : α → Nat) (x : α) (s : List α) (h : s.any (fun y => key y == key x) = true) :
+    osetInsert key x s = s := by
+  simp [osetInsert, h]
+
+/-- **`keyed_set_perm_invariant`**: with pairwise different keys the ordered set is the sorted sequence, whatever the
+    arrival order -/
+theorem keyed_set_perm_invariant {α : Type} (key : α → Nat) (l l' : List α) (hp : l.Perm l') (hnd : (l.map key).Nodup) :
+    osetOf key l = osetOf key l' := by
+  have hnd' : (l'.map key).Nodup := (hp.map key).nodup_iff.1 hnd
+  have e1 : osetOf key l = isortBy key l := foldl_oset_eq key l [] (by simpa using hnd)
+  have e2 : osetOf key l' = isortBy key l' := foldl_oset_eq key l' [] (by simpa using hnd')
+  rw [e1, e2]
+  exact keyed_sort_perm_invariant key l l' hp hnd
+
+/-- **a tie-break by address is neither collapsing nor arrival order**: two elements with the same key, two runs whose
+    allocators place them in opposite order — the same comparator `(key, address)` yields opposite sequences, in the sort
+    and in the ordered set (which now keeps both) -/
+theorem address_tiebreak_layout_dependent {α : Type} (key addr1 addr2 : α → Nat) (m : Nat) (a b : α)
+    (hk : key a = key b) (h1 : addr1 a < addr1 b) (h2 : addr2 b < addr2 a)
+    (hm : addr1 a < m ∧ addr1 b < m ∧ addr2 a < m ∧ addr2 b < m) :
+    isortBy (withAddress key addr1 m) [a, b] = [a, b] ∧ isortBy (withAddress key addr2 m) [a, b] = [b, a] ∧
+    osetOf (withAddress key addr1 m) [a, b] = [a, b] ∧ osetOf (withAddress key addr2 m) [a, b] = [b, a] := by
+  have c1 : ¬ (withAddress key addr1 m b < withAddress key addr1 m a) := by
+    simp only [withAddress, hk]; omega
+  have c2 : withAddress key addr2 m b < withAddress key addr2 m a := by
+    simp only [withAddress, hk]; omega
+  have n1 : ¬ withAddress key addr1 m a = withAddress key addr1 m b := by
+    simp only [withAddress, hk]; omega
+  have n2 : ¬ withAddress key addr2 m a = withAddress key addr2 m b := by
+    simp only [withAddress, hk]; omega
+  refine ⟨?_, ?_, ?_, ?_⟩
+  · simp [isortBy, ins, c1]
+  · simp [isortBy, ins, c2]
+  · simp [osetOf, osetInsert, ins, c1, n1]
+  · simp [osetOf, osetInsert, ins, c2, n2]
+
+/-- the seeded change to `CompareVariables`, concretely: `n` and `pl` are declared by one macro expansion (same file, line,
+    column = key 17005); the comparator of record keeps one of them, always the first; with the address tie-break the two
+    findings come out in address order -/
+example : osetOf (fun v : String × Nat => 17005) [("n", 0x5000), ("pl", 0x5040)] = [("n", 0x5000)] ∧
+    osetOf (withAddress (fun _ => 17005) (fun v : String × Nat => v.2) 0x10000) [("n", 0x5000), ("pl", 0x5040)] = [("n", 0x5000), ("pl", 0x5040)] ∧
+    osetOf (withAddress (fun _ => 17005) (fun v : String × Nat => v.2) 0x10000) [("n", 0x7040), ("pl", 0x7000)] = [("pl", 0x7000), ("n", 0x7040)] := by
+  decide
+
+example : isortBy (fun v : String × Nat => v.2) [("b", 2), ("a", 1), ("c", 2)] = [("a", 1), ("b", 2), ("c", 2)] := by decide
+
 end Cppcheck.Determinism
